@@ -28,7 +28,8 @@ EXTRA_TARGETS = ("Whole/Run.vo",)
 EXTS = ["_geometry"]
 RULE = ("systems of 1..6 molecules of 1..12 atoms (chains, branched trees, rings, stars) built whole with extent < 0.4 "
         "of the shortest cell width, then every atom moved to a random image in [-2,2]^3 (coordinates on a 2^-10 nm grid); "
-        "cubic/orthorhombic/triclinic cells, 1-2 frames; atom numbering parent-first or shuffled, add_bond order shuffled; "
+        "cubic/orthorhombic/triclinic cells, 1-3 frames whose cells form a series (independent / same lengths, angles vary / same angles, lengths vary / "
+        "orthorhombic then triclinic and back / constant); atom numbering parent-first or shuffled, add_bond order shuffled; "
         "make_molecules_whole / image_molecules x inplace x make_whole x explicit/guessed anchors x explicit sorted_bonds; "
         "a case is non-trivial when at least one atom is moved by a non-zero lattice vector; distinct by hash of the case")
 TRUSTED = ["harness/impl/whole_impl.py (builds the Trajectory/Topology, reports the float32 cells as exact integers)",
@@ -131,6 +132,115 @@ def translate(ctx):
     ctx.write_gen("Gen/WholeWalk.v", text)
     ctx.notes.setdefault("coverage_extra", {})["translated_walk_spec"] = dict(zip(
         ["roots_ascending", "adj_both", "pop_last", "skip_placed", "mark_on_push", "emit_parent_child", "push_new", "fresh"], spec))
+    translate_dispatch(ctx, tree)
+
+
+def translate_dispatch(ctx, tree):
+    """read the argument handling of Trajectory.make_molecules_whole / image_molecules (trajectory.py) with Python's ast and
+    regenerate coq/Gen/WholeDispatch.v (a dispatch_spec record); Props/C11.v proves it equal to the spec coq/Whole/Anchors.v
+    implements.  False is reported only for a RECOGNISED statement that deviates; an unknown shape raises (=> degraded)."""
+    import ast
+    un = ast.unparse
+    cls = next((n for n in tree.body if isinstance(n, ast.ClassDef) and n.name == "Trajectory"), None)
+    if cls is None:
+        raise ValueError("no class Trajectory")
+    fns = {n.name: n for n in cls.body if isinstance(n, ast.FunctionDef)}
+
+    def norm(t):
+        return t.replace('"', "'").replace(" ", "")
+
+    def analyse(name, kernel):
+        fn = fns.get(name)
+        if fn is None:
+            raise ValueError("Trajectory.%s not found" % name)
+        body = [n for n in fn.body if not (isinstance(n, ast.Expr) and isinstance(n.value, ast.Constant))]
+        ifs = [n for n in body if isinstance(n, ast.If)]
+        # the kernel call
+        calls = [n for n in ast.walk(fn) if isinstance(n, ast.Call) and un(n.func) == "_geometry.%s" % kernel]
+        if len(calls) != 1:
+            raise ValueError("%s: expected exactly one call of _geometry.%s (found %d)" % (name, kernel, len(calls)))
+        args = [norm(un(a)) for a in calls[0].args]
+        assigns = {}
+        for n in ast.walk(fn):
+            if isinstance(n, ast.Assign) and len(n.targets) == 1 and isinstance(n.targets[0], ast.Name):
+                assigns.setdefault(n.targets[0].id, []).append(norm(un(n.value)))
+        r = {}
+        # cell guard
+        guard = [n for n in ifs if norm(un(n.test)) in ("unitcell_vectorsisNone", "self.unitcell_vectorsisNone", "self._unitcell_vectorsisNone")]
+        r["cell_guard"] = bool(guard) and isinstance(guard[0].body[0], ast.Raise) and "ValueError" in un(guard[0].body[0]) and \
+            body.index(guard[0]) <= 1 and (norm(un(guard[0].test)) != "unitcell_vectorsisNone" or assigns.get("unitcell_vectors") == ["self.unitcell_vectors"])
+        # copy unless inplace
+        cp = [n for n in ifs if norm(un(n.test)) in ("inplace", "notinplace")]
+        cp = [n for n in cp if n.orelse and any(isinstance(x, ast.Assign) and un(x.targets[0]) == "result" for x in n.body)]
+        if len(cp) != 1:
+            raise ValueError("%s: no recognisable 'result = self / self[:]' branch" % name)
+        yes = [norm(un(x.value)) for x in cp[0].body if isinstance(x, ast.Assign) and un(x.targets[0]) == "result"]
+        no = [norm(un(x.value)) for x in cp[0].orelse if isinstance(x, ast.Assign) and un(x.targets[0]) == "result"]
+        if norm(un(cp[0].test)) == "notinplace":
+            yes, no = no, yes
+        copies = ("self[:]", "self.slice(slice(None),copy=True)", "self.slice(slice(None))", "copy.deepcopy(self)", "deepcopy(self)")
+        r["copy"] = yes == ["self"] and len(no) == 1 and no[0] in copies
+        # kernel runs on the coordinates and the cells of result
+        if len(args) < 3 or args[1] not in assigns:
+            raise ValueError("%s: unrecognised kernel arguments %s" % (name, args))
+        boxes = assigns[args[1]]
+        ok_box = ("np.asarray(result.unitcell_vectors,order='c')", "np.asarray(result.unitcell_vectors,order='C')",
+                  "np.ascontiguousarray(result.unitcell_vectors)")
+        self_box = tuple(b.replace("result.", "self.") for b in ok_box)
+        if len(boxes) != 1 or boxes[0] not in ok_box + self_box:
+            raise ValueError("%s: unrecognised unit-cell argument %s" % (name, boxes))
+        if args[0] not in ("result.xyz", "self.xyz", "result._xyz", "self._xyz"):
+            raise ValueError("%s: unrecognised coordinate argument %s" % (name, args[0]))
+        r["kernel_on_result"] = args[0] in ("result.xyz", "result._xyz") and args[-1] == "sorted_bonds"
+        # returns
+        rets = [n for n in body if isinstance(n, ast.Return)] + [x for n in ifs for x in n.body + n.orelse if isinstance(x, ast.Return)]
+        rtxt = sorted(norm(un(x.value)) if x.value is not None else "None" for x in rets)
+        rif = [n for n in ifs if any(isinstance(x, ast.Return) for x in n.body)]
+        r["returns"] = rtxt == ["result", "self"] and len(rif) == 1 and norm(un(rif[0].test)) == "notinplace" and \
+            norm(un(rif[0].body[0].value)) == "result" and isinstance(body[-1], ast.Return) and norm(un(body[-1].value)) == "self"
+        # the bond walk
+        wk = [n for n in ifs if "sorted_bonds" in un(n.test)]
+        if len(wk) != 1:
+            raise ValueError("%s: no recognisable sorted_bonds default" % name)
+        t = norm(un(wk[0].test))
+        dflt = [norm(un(x.value)) for x in wk[0].body if isinstance(x, ast.Assign) and un(x.targets[0]) == "sorted_bonds"]
+        walk_ok = dflt in (["_parent_first_bonds(self._topology)"], ["_parent_first_bonds(self.topology)"])
+        if kernel == "whole_molecules":
+            r["walk_default"] = walk_ok and t == "sorted_bondsisNone" and not wk[0].orelse
+        else:
+            el = wk[0].orelse
+            drop = len(el) == 1 and isinstance(el[0], ast.If) and norm(un(el[0].test)) == "notmake_whole" and not el[0].orelse and \
+                [norm(un(x)) for x in el[0].body] == ["sorted_bonds=None"]
+            r["walk_default"] = walk_ok and t in ("make_wholeandsorted_bondsisNone", "sorted_bondsisNoneandmake_whole") and drop
+        if kernel == "image_molecules":
+            an = [n for n in ifs if norm(un(n.test)) == "anchor_moleculesisNone"]
+            r["anchor_default"] = len(an) == 1 and not an[0].orelse and [norm(un(x)) for x in an[0].body] in (
+                ["anchor_molecules=self.topology.guess_anchor_molecules()"], ["anchor_molecules=self._topology.guess_anchor_molecules()"])
+            ot = [n for n in ifs if norm(un(n.test)) == "other_moleculesisNone"]
+            if len(ot) != 1:
+                raise ValueError("image_molecules: no recognisable other_molecules default")
+            st = [norm(un(x)) for x in ot[0].body]
+            r["others_default"] = not ot[0].orelse and len(st) == 2 and st[0] in (
+                "molecules=self._topology.find_molecules()", "molecules=self.topology.find_molecules()") and \
+                st[1] == "other_molecules=[molformolinmoleculesifmolnotinanchor_molecules]"
+            # the index arrays handed to the kernel are built from the molecules, atom by atom
+            exp = {"anchor_molecules_atom_indices": "anchor_molecules", "other_molecules_atom_indices": "other_molecules"}
+            for a, src in exp.items():
+                if a not in args or assigns.get(a) != ["[np.fromiter((a.indexforainmol),dtype=np.int32)formolin%s]" % src]:
+                    raise ValueError("image_molecules: unrecognised construction of %s: %s" % (a, assigns.get(a)))
+            if args[2:4] != ["anchor_molecules_atom_indices", "other_molecules_atom_indices"]:
+                r["kernel_on_result"] = False
+        return r
+    mw = analyse("make_molecules_whole", "whole_molecules")
+    im = analyse("image_molecules", "image_molecules")
+    keys = ["cell_guard", "copy", "walk_default", "kernel_on_result", "returns"]
+    spec = [mw[k] for k in keys] + [im[k] for k in keys] + [im["anchor_default"], im["others_default"]]
+    text = ("(* GENERATED by harness/props/C11.py:translate_dispatch from mdtraj/core/trajectory.py:Trajectory.make_molecules_whole / "
+            "image_molecules -- do not edit *)\nRequire Import MD.Whole.Anchors.\n"
+            "Definition gen_dispatch_spec : dispatch_spec := mkDispatch %s.\n" % " ".join("true" if b else "false" for b in spec))
+    ctx.write_gen("Gen/WholeDispatch.v", text)
+    ctx.notes.setdefault("coverage_extra", {})["translated_dispatch_spec"] = dict(
+        [("make_molecules_whole." + k, mw[k]) for k in keys] + [("image_molecules." + k, im[k]) for k in keys + ["anchor_default", "others_default"]])
 
 
 # ----------------------------------------------------------------------------- generator
@@ -189,6 +299,46 @@ def gen_cell(rng, kind):
             return cell
 
 
+CELL_SERIES = ["independent", "independent", "same-lengths", "same-lengths", "same-lengths", "same-angles", "ortho-then-tric",
+               "tric-then-ortho", "constant"]
+
+
+def gen_cell_series(rng, kind, n):
+    """the cells of the frames of one trajectory.  Besides independent cells: edge lengths bit-identical in every frame while
+    the angles differ (shear at constant edge lengths), angles constant while the lengths differ, first frame orthorhombic and
+    the later ones triclinic with the same lengths (and the reverse), one constant cell -- a per-trajectory shortcut keyed on
+    part of the cell description re-images later frames with the wrong cell"""
+    if n == 1:
+        return [gen_cell(rng, kind)], "single"
+    mode = rng.choice(CELL_SERIES)
+    if mode == "independent":
+        return [gen_cell(rng, kind) for _ in range(n)], mode
+    first = gen_cell(rng, kind)
+    if mode == "constant":
+        return [{"lengths": list(first["lengths"]), "angles": list(first["angles"])} for _ in range(n)], mode
+    if mode == "same-angles":
+        out = [first]
+        for _ in range(n - 1):
+            L = [rng.randint(2 * G, 5 * G) for _ in range(3)]
+            if kind == "cubic":
+                L = [L[0]] * 3
+            out.append({"lengths": L, "angles": list(first["angles"])})
+        return out, mode
+    L = list(first["lengths"])
+    if mode == "ortho-then-tric":
+        first = {"lengths": L, "angles": [90.0, 90.0, 90.0]}
+    elif mode == "tric-then-ortho":
+        first = {"lengths": L, "angles": gen_cell(rng, "tric")["angles"]}
+    out = [first]
+    for f in range(1, n):
+        if mode == "tric-then-ortho":
+            A = [90.0, 90.0, 90.0] if (f % 2 == 1 or rng.random() < 0.5) else gen_cell(rng, "tric")["angles"]
+        else:
+            A = gen_cell(rng, "tric")["angles"]
+        out.append({"lengths": list(L), "angles": A})
+    return out, mode
+
+
 def gen_molecule(rng, n, shape):
     """-> (bonds as (parent, child) in placement order over local indices 0..n-1, extra ring bonds)"""
     tree = []
@@ -209,7 +359,7 @@ def gen_molecule(rng, n, shape):
 
 
 def gen_system(rng, kind, n_frames, many=False):
-    cells = [gen_cell(rng, kind) for _ in range(n_frames)]
+    cells, series = gen_cell_series(rng, kind, n_frames)
     # Topology.guess_anchor_molecules only finds anchors when there are >= 10 molecules and the largest ones are
     # larger than the one at rank 10%: "many" = one or two solutes in a bath of small molecules
     nmol = rng.randint(10, 14) if many else rng.choice([1, 1, 2, 2, 3, 4, 5, 6])
@@ -277,7 +427,8 @@ def gen_system(rng, kind, n_frames, many=False):
                 k = [rng.randint(-2, 2) for _ in range(3)] if scatter == "per-atom" else (sh_m if scatter == "per-molecule" else [0, 0, 0])
                 pos[i] = loc[a] + k[0] * B[0] + k[1] * B[1] + k[2] * B[2]
         frames.append({"xyz": [[int(round(v * G)) for v in p] for p in pos], "cell": cells[f], "time": float(rng.randint(0, 1000)) / 4})
-    return {"frames": frames, "bonds": bonds, "mol_of": mol_of, "numbering": numbering, "kind": kind,
+    return {"frames": frames, "bonds": bonds, "mol_of": mol_of, "numbering": numbering,
+            "kind": kind if series in ("single", "independent") else "%s+cells:%s" % (kind, series), "cell_series": series,
             "shapes": [m[1] for m in mols], "sizes": [m[0] for m in mols], "mols": glob,
             "tree_bonds": [[ids[p], ids[c]] for (n, shape, tree, extra), ids in zip(mols, glob) for p, c in tree]}
 
@@ -286,7 +437,7 @@ def gen_case(rng):
     kind = rng.choice(["cubic", "ortho", "ortho", "tric", "tric"])
     api = rng.choice(["whole", "image", "image"])
     guessed = api == "image" and rng.random() < 0.5
-    case = gen_system(rng, kind, rng.choice([1, 1, 2]), many=guessed and rng.random() < 0.85)
+    case = gen_system(rng, kind, rng.choice([1, 1, 1, 2, 2, 3]), many=guessed and rng.random() < 0.85)
     case["api"] = api
     case["inplace"] = rng.random() < 0.5
     case["make_whole"] = rng.random() < 0.7
@@ -306,6 +457,9 @@ def gen_case(rng):
                 rng.shuffle(m)
     if rng.random() < 0.15 and (case["api"] == "whole" or case["make_whole"]):
         # the caller supplies a proper parent-first walk himself
+        case["sorted_bonds"] = [list(b) for b in case["tree_bonds"]]
+    elif case["api"] == "image" and not case["make_whole"] and rng.random() < 0.3:
+        # sorted_bonds given although make_whole=False: documented as irrelevant then -- nothing may be made whole
         case["sorted_bonds"] = [list(b) for b in case["tree_bonds"]]
     return case
 
@@ -389,7 +543,7 @@ def gen_history(rng):
             ops.append(reimage())
     if ops[-1]["op"] not in ("whole", "image"):
         ops.append(reimage())
-    return {"history": True, "frames": sysd["frames"], "bonds": initial, "mol_of": list(range(n)), "ops": ops, "kind": kind,
+    return {"history": True, "frames": sysd["frames"], "bonds": initial, "mol_of": list(range(n)), "ops": ops, "kind": sysd["kind"],
             "numbering": "history", "shapes": sysd["shapes"], "sizes": sysd["sizes"], "api": "history", "inplace": False,
             "make_whole": True, "anchors": None, "others": None, "sorted_bonds": None}
 
@@ -461,9 +615,13 @@ def coq_codes(ctx, coq):
     for si, sh in enumerate(shards):
         lines = ["From Coq Require Import ZArith List Bool.", "Import ListNotations.",
                  "Require Import MD.Neigh.Model MD.Whole.Model MD.Whole.Run.", "Open Scope Z_scope.",
-                 "Definition cases : list (wcase * list vec * option (list (list nat))) := [", ";\n".join("(%s, %s, %s)" % coq[k] for k in sh), "].",
-                 "Eval vm_compute in (7777, map (fun c => w_code (fst (fst c)) (snd (fst c)) * 32 + w_split_code (fst (fst c)) + "
-                 "match snd c with Some m => if w_mols_ok (fst (fst c)) m then 0 else 16 | None => 0 end) cases)."]
+                 "Definition cases : list (wcase * list vec * option (list (list nat)) * option (option (list (list nat))) * option (list (list nat))) := [",
+                 ";\n".join("(%s, %s, %s, %s, %s)" % coq[k] for k in sh), "].",
+                 "Eval vm_compute in (7777, map (fun c5 => let c := fst (fst c5) in "
+                 "w_code (fst (fst c)) (snd (fst c)) * 256 + w_split_code (fst (fst c)) + "
+                 "match snd c with Some m => (if w_mols_ok (fst (fst c)) m then 0 else 16) + (if w_mols_loop_ok (fst (fst c)) m then 0 else 32) | None => 0 end + "
+                 "match snd (fst c5) with Some g => if w_guess_ok (fst (fst c)) g then 0 else 64 | None => 0 end + "
+                 "match snd c5 with Some o => if w_others_ok (fst (fst c)) o then 0 else 128 | None => 0 end) cases)."]
         path = os.path.join(ctx.tmp, "wcodes_%d_%d.v" % (len(coq), si))
         with open(path, "w") as fh:
             fh.write("\n".join(lines) + "\n")
@@ -590,18 +748,52 @@ def run_cases(ctx, cases):
             rec[(ci, f)] = (ks, res, B, new)
             jobs.append((ci, f))
             mols = o.get("molecules")
+            cml = lambda ms: clist([clist([cnat(a) for a in m]) for m in ms])       # noqa: E731
+            g = o.get("guessed")
+            guess = "None" if (f > 0 or mols is None or g in (None, "error")) else (
+                "(Some None)" if g == "refused" else "(Some (Some %s))" % cml(g))
+            oth = "None"
+            if f == 0 and mols is not None and c["api"] == "image" and c.get("others") is None and o.get("others_used") is not None:
+                oth = "(Some %s)" % cml([sorted(m) for m in o["others_used"]])
             coq.append((coq_case(c, f, o), clist(["(%s,%s,%s)" % tuple(cz(v) for v in k) for k in ks]),
-                        "None" if mols is None or f > 0 else "(Some %s)" % clist([clist([cnat(a) for a in m]) for m in mols])))
+                        "None" if mols is None or f > 0 else "(Some %s)" % cml(mols), guess, oth))
     codes, errs = coq_codes(ctx, coq) if coq else ({}, [])
     if errs:
         ctx.break_("correspondence:coqc-evaluation", "\n".join(errs))
     for k in range(len(jobs)):
-        codes.setdefault(k, 3 * 32)      # not evaluated (coqc error): agrees with nothing
+        codes.setdefault(k, 3 * 256)      # not evaluated (coqc error): agrees with nothing
     split_of = {jobs[k]: v % 8 for k, v in codes.items()}
     cert_bad = [jobs[k] for k, v in codes.items() if (v % 16) >= 8]
     mols_bad = [jobs[k] for k, v in codes.items() if (v % 32) >= 16]
-    code_of = {jobs[k]: v // 32 for k, v in codes.items()}
+    loop_bad = [jobs[k] for k, v in codes.items() if (v % 64) >= 32]
+    if loop_bad:
+        ctx.break_("correspondence:find_molecules-loop-model",
+                   "coq/Whole/Molecules.v (the loop of Topology.find_molecules) does not reproduce the implementation on %d topologies, e.g. bonds %s -> %s" % (
+                       len(loop_bad), cases[loop_bad[0][0]]["bonds"], outs[loop_bad[0][0]].get("molecules")))
+    guess_bad = [jobs[k] for k, v in codes.items() if (v % 128) >= 64]
+    others_bad = [jobs[k] for k, v in codes.items() if (v % 256) >= 128]
+    code_of = {jobs[k]: v // 256 for k, v in codes.items()}
     extra0 = ctx.notes.setdefault("coverage_extra", {})
+    gstat = extra0.setdefault("guess_anchor_molecules_vs_model", {"compared": 0, "identical": 0, "refusals": 0, "differ(informational)": 0})
+    for (ci, f) in jobs:
+        if f == 0 and outs[ci].get("molecules") is not None and outs[ci].get("guessed") not in (None, "error"):
+            gstat["compared"] += 1
+            gstat["refusals"] += outs[ci]["guessed"] == "refused"
+            gstat["identical"] += (ci, f) not in guess_bad
+    gstat["differ(informational)"] += len(guess_bad)
+    if guess_bad:
+        # the size heuristic itself is not part of the property: a different (still molecule-valued) guess is recorded only
+        ctx.log("Topology.guess_anchor_molecules differs from coq/Whole/Anchors.v on %d systems (informational), e.g. bonds %s -> %s" % (
+            len(guess_bad), cases[guess_bad[0][0]]["bonds"], outs[guess_bad[0][0]].get("guessed")))
+    ostat = extra0.setdefault("default_other_molecules_vs_model", {"compared": 0, "differ": 0})
+    ostat["compared"] += sum(1 for (ci, f) in jobs if f == 0 and cases[ci]["api"] == "image" and cases[ci].get("others") is None
+                             and outs[ci].get("molecules") is not None and outs[ci].get("others_used") is not None)
+    ostat["differ"] += len(others_bad)
+    for ci, f in others_bad:
+        ctx.fail("image_molecules: the default other_molecules are not the molecules outside the anchors", cases[ci].get("_origin", cases[ci]),
+                 observed={"anchors_used": outs[ci].get("anchors_used"), "others_used": outs[ci].get("others_used"), "molecules": outs[ci].get("molecules")},
+                 expected="Anchors.default_others (Props/C11.v default_others_complement): every molecule that is not an anchor, each once",
+                 tags={"api": "image", "kind": "default others", "explained_by": None})
     extra0["find_molecules_partitions_compared"] = extra0.get("find_molecules_partitions_compared", 0) + sum(
         1 for (ci, f) in jobs if f == 0 and outs[ci].get("molecules") is not None)
     for ci, f in mols_bad:
@@ -728,7 +920,7 @@ FIXED_PROBES = [
 
 def correspond(ctx):
     quick = ctx.tier == "quick"
-    cases = [dict(c) for c in FIXED_PROBES] + [gen_case(ctx.rng) for _ in range(700 if quick else 11000)]
+    cases = [dict(c) for c in FIXED_PROBES] + [gen_case(ctx.rng) for _ in range(540 if quick else 10000)]
     cases += [gen_history(ctx.rng) for _ in range(120 if quick else 1200)]
     ctx.log("systems:", len(cases))
     run_cases(ctx, cases)
